@@ -78,8 +78,11 @@ def extract_rules(src, rep):
     for k in KINDS:
         if k not in byname:
             raise Anchor("impl SetRewritingRulesVisitor for RewritingRulesSetter: method `%s` not found" % k)
+    from .canon import canon_view
+
     for k in KINDS:
-        f = byname[k]
+        f = canon_view(byname[k], src, lets=True)  # parameter locals and private helper methods of the setter are read through
+        byname[k] = f
         for n, guards in walk_guards(f.body):
             if is_call_to(n, "RewritingRule::new"):
                 a = n["args"]
